@@ -21,8 +21,9 @@ Reading guide.
 * `Dividers::{modu16, modi64, divmod_uint}` are exact (`%`, `/`) by property C08
   (`Ymq.C08.modu16_spec`, `modi64_spec`); the u16/u32 arithmetic around them is explicit in the model.
 -/
-import Ymq.Lemmas.SieveTotal
-import Ymq.Lemmas.SieveCofactor
+import Ymq.Lemmas.SieveTotal2
+import Ymq.Lemmas.SieveFBase
+import Ymq.Lemmas.SieveLogSum
 
 namespace Ymq.C13
 open Ymq.Sieve
@@ -339,59 +340,120 @@ example : (FB.ofPrimes #[2, 5, 32771]).WF ∧ RootsOK (FB.ofPrimes #[2, 5, 32771
 
 /-- `no_panic`. On valid inputs — well-formed non-empty factor base, reduced roots, two different roots for
 every prime ≥ 32768 (the debug assertion of `new`), at most 2^17 blocks (interval ≤ 2^32), a start offset
-within ±2^62, fresh tables — no panic site of the modelled code is reached: `Sieve::new` returns, and for
-every block `b < nblocks` the `b` rounds `sieve_block(); next_block()`, the next `sieve_block()`, the factor
+within ±2^62, fresh tables OR recycled tables of a sieve with the same factor base and number of blocks
+(arbitrary contents) — no panic site of the modelled code is reached: `Sieve::new` returns, and for every
+block `b < nblocks` the `b` rounds `sieve_block(); next_block()`, the next `sieve_block()`, the factor
 recovery of `smooths` at EVERY position of the block and the following `next_block()` all return
 (no underflow in `len - p - m`, no `u16`/`u32` overflow, every checked index and every `get_unchecked`
-index in range, all loops terminate). -/
+index in range, all loops terminate). The tables of every state reached can be recycled again
+(`RecycledSized … (some (recycle s2))`), so the statement chains over any number of polynomials. -/
 theorem no_panic (fb : FB) (hfb : fb.WF) (hne : fb.primes.size ≠ 0) (r1 r2 : Array Nat)
     (hr : RootsOK fb r1 r2) (hd : RootsDistinct fb r1 r2) (offset : Int) (ho1 : -2 ^ 62 ≤ offset)
-    (ho2 : offset ≤ 2 ^ 62) (nblocks : Nat) (hN : nblocks ≤ 2 ^ 17) :
-    ∃ s0, Sieve.new offset nblocks fb r1 r2 none = some s0 ∧
+    (ho2 : offset ≤ 2 ^ 62) (nblocks : Nat) (hN : nblocks ≤ 2 ^ 17)
+    (recycled : Option (Array Table × Array LTable)) (hrec : RecycledSized fb nblocks recycled) :
+    ∃ s0, Sieve.new offset nblocks fb r1 r2 recycled = some s0 ∧
+      RecycledSized fb nblocks (some (recycle s0)) ∧
       ∀ b, b < nblocks → ∃ s1 s s2, runBlocks fb b s0 = some s1 ∧ sieveBlock fb s1 = some s ∧
-        (∀ r, r < 32768 → ∃ facs, factorsOf fb s r1 r2 r = some facs) ∧ nextBlock s = some s2 := by
+        (∀ r, r < 32768 → ∃ facs, factorsOf fb s r1 r2 r = some facs) ∧ nextBlock s = some s2 ∧
+        RecycledSized fb nblocks (some (recycle s2)) := by
   obtain ⟨nS, hnS⟩ := hfb.ibl_some 16 (by omega)
-  obtain ⟨s0, h0, hsz0, hsk0⟩ := new_total (offset := offset) hfb hne hr hd hN hnS
-  obtain ⟨b0, n0, f0, inv0⟩ := new_spec hfb hr (fun _ _ h => by simp at h) hnS h0
-  refine ⟨s0, h0, ?_⟩
-  -- the state after b rounds
-  have hrun : ∀ b, b ≤ nblocks → ∃ s1, runBlocks fb b s0 = some s1 ∧ Inv fb nS r1 r2 r1 r2 b s1 ∧
-      StateSized nblocks s1 ∧ s1.idxskip ≤ 2 * nS ∧ s1.blkNo = b ∧ s1.offset = offset + b * BLOCK := by
-    intro b
-    induction b with
-    | zero => intro _; exact ⟨s0, rfl, inv0, hsz0, hsk0, b0, by rw [f0]; simp⟩
-    | succ b ih =>
-      intro hb
-      obtain ⟨s1, h1, inv1, sz1, sk1, bk1, of1⟩ := ih (by omega)
-      obtain ⟨s, hs⟩ := sieveBlock_some hfb hnS inv1 sk1 sz1 (by omega)
-      obtain ⟨inv2, _, bk2, nb2, of2, tb2, lt2, is2⟩ := sieveBlock_spec hfb hnS inv1 hs
-      have hnx : ¬ s.offset + (BLOCK : Int) ≥ 2 ^ 63 := by
-        rw [of2, of1]
-        have : (b : Int) < 2 ^ 17 := by exact_mod_cast (by omega : b < 2 ^ 17)
-        simp only [BLOCK]; push_cast; omega
-      refine ⟨{ s with offset := s.offset + BLOCK, blkNo := s.blkNo + 1 }, ?_, ?_, ?_, by simpa [is2] using sk1,
-        by simp [bk2, bk1], by simp only [of2, of1]; push_cast; ring⟩
-      · simp only [runBlocks, h1, hs, nextBlock, hnx, if_false, Option.bind_eq_bind, Option.bind_some]
-      · exact (nextBlock_spec inv2 (s' := { s with offset := s.offset + BLOCK, blkNo := s.blkNo + 1 })
-          (by simp only [nextBlock, hnx, if_false])).1
-      · exact ⟨by simp [nb2, sz1.nb], by simpa [tb2] using sz1.tabs, by simpa [lt2] using sz1.ltabs⟩
+  obtain ⟨s0, h0, hsz0, hsk0⟩ := new_total' (offset := offset) hfb hne hr hd hN hnS hrec
+  obtain ⟨b0, n0, f0, inv0⟩ := new_spec hfb hr hrec.ok hnS h0
+  refine ⟨s0, h0, recycle_sized inv0 hsz0, ?_⟩
   intro b hb
-  obtain ⟨s1, h1, inv1, sz1, sk1, bk1, of1⟩ := hrun b (by omega)
-  obtain ⟨s, hs⟩ := sieveBlock_some hfb hnS inv1 sk1 sz1 (by omega)
-  obtain ⟨inv2, hprev, bk2, nb2, of2, tb2, lt2, is2⟩ := sieveBlock_spec hfb hnS inv1 hs
-  have hsz : StateSized nblocks s := ⟨by rw [nb2, sz1.nb], by rw [tb2]; exact sz1.tabs, by rw [lt2]; exact sz1.ltabs⟩
-  have hnx : ¬ s.offset + (BLOCK : Int) ≥ 2 ^ 63 := by
-    rw [of2, of1]
-    have : (b : Int) < 2 ^ 17 := by exact_mod_cast (by omega : b < 2 ^ 17)
-    simp only [BLOCK]; push_cast; omega
-  refine ⟨s1, s, { s with offset := s.offset + BLOCK, blkNo := s.blkNo + 1 }, h1, hs, ?_, by simp only [nextBlock, hnx, if_false]⟩
-  intro r hr'
-  exact factorsOf_some hfb hnS hr hprev inv2.tsize hsz (by rw [bk2, bk1]; exact hb) hN (by simpa [BLOCK] using hr')
+  have hb17 : (b : Int) < 2 ^ 17 := by exact_mod_cast (by omega : b < 2 ^ 17)
+  obtain ⟨s1, s, s2, h1, h2, h3, h4, inv2, sz2, _, _⟩ := run_some hfb hnS hr hN b 0 s0 inv0 hsz0 hsk0
+    (by rw [b0]; omega) (by rw [f0]; omega)
+  exact ⟨s1, s, s2, h1, h2, h4, h3, recycle_sized inv2 sz2⟩
+
+/-- `no_panic` for the classical quadratic sieve: after a full interval, `rehash` with ANY reduced root
+tables returns (it has no assertion on the roots), and so do the following blocks, their factor recovery
+and `next_block`, as long as the running offset stays inside `i64`. -/
+theorem no_panic_rehash (fb : FB) (hfb : fb.WF) (hne : fb.primes.size ≠ 0) (r1 r2 r1' r2' : Array Nat)
+    (hr : RootsOK fb r1 r2) (hd : RootsDistinct fb r1 r2) (hr' : RootsOK fb r1' r2')
+    (offset : Int) (ho1 : -2 ^ 62 ≤ offset) (ho2 : offset ≤ 2 ^ 62) (nblocks : Nat) (hN : nblocks ≤ 2 ^ 17)
+    (recycled : Option (Array Table × Array LTable)) (hrec : RecycledSized fb nblocks recycled) :
+    ∃ s0 sa sb, Sieve.new offset nblocks fb r1 r2 recycled = some s0 ∧ runBlocks fb nblocks s0 = some sa ∧
+      rehash fb sa r1' r2' = some sb ∧
+      ∀ b, b < nblocks → ∃ s1 s s2, runBlocks fb b sb = some s1 ∧ sieveBlock fb s1 = some s ∧
+        (∀ r, r < 32768 → ∃ facs, factorsOf fb s r1' r2' r = some facs) ∧ nextBlock s = some s2 := by
+  obtain ⟨nS, hnS⟩ := hfb.ibl_some 16 (by omega)
+  obtain ⟨s0, h0, hsz0, hsk0⟩ := new_total' (offset := offset) hfb hne hr hd hN hnS hrec
+  obtain ⟨b0, n0, f0, inv0⟩ := new_spec hfb hr hrec.ok hnS h0
+  have hN' : (nblocks : Int) ≤ 2 ^ 17 := by exact_mod_cast hN
+  obtain ⟨sa, ha, inva, sza, ska, bka, ofa⟩ := runBlocks_some hfb hnS nblocks 0 s0 inv0 hsz0 hsk0
+    (by rw [b0]; omega) (by rw [f0]; omega)
+  obtain ⟨sb, hb, szb, skb⟩ := rehash_some hfb hr' inva sza
+  obtain ⟨invb, bkb, _, ofb⟩ := rehash_spec inva hb
+  refine ⟨s0, sa, sb, h0, ha, hb, ?_⟩
+  intro b hbn
+  have hb17 : (b : Int) < 2 ^ 17 := by exact_mod_cast (by omega : b < 2 ^ 17)
+  obtain ⟨s1, s, s2, h1, h2, h3, h4, _⟩ := run_some hfb hnS hr' hN b _ sb invb szb (by rw [skb, ska]; exact hsk0)
+    (by rw [bkb]; omega) (by rw [ofb, ofa, f0]; omega)
+  exact ⟨s1, s, s2, h1, h2, h4, h3⟩
+
+/-- `cofactor_no_panic`. `fbase::cofactor` returns (no index panic, no `u64` overflow, the trial-division loop
+terminates, the debug assertion `!certainly_composite(cofactor)` holds) when: the value is non-zero and below
+`2^256` (`I256`), every listed index is inside the non-empty factor base (primes ≥ 2), `maxlarge < 2^32`
+(asserted by the callers), and — the comment "Must be prime" of the code, named hypothesis — every divisor
+of the value that is ≤ `maxlarge` and divisible by no listed prime is 1 or a prime (true when the list is
+complete, `listed_complete`, and `maxlarge` is below the square of the largest factor-base prime).
+For every behaviour of `try_factor64`. (`certainlyComposite_prime`: the Fermat test of
+`certainly_composite`, modelled on the Montgomery routines of C07, accepts every prime below 2^64.) -/
+theorem cofactor_no_panic (primes : Array Nat) (hp2 : ∀ (i pp : Nat), primes[i]? = some pp → 2 ≤ pp)
+    (hne : primes.size ≠ 0) (x : Int) (hx : x ≠ 0) (hx256 : x.natAbs < 2 ^ 256) (facs : List Nat)
+    (hfacs : ∀ pidx ∈ facs, pidx < primes.size) (maxlarge : Nat) (hml : maxlarge < 2 ^ 32) (double : Bool)
+    (tf : Nat → Option (Nat × Nat))
+    (must_be_prime : ∀ c : Nat, c ∣ x.natAbs → c ≤ maxlarge →
+      (∀ pidx ∈ facs, ∀ pp, primes[pidx]? = some pp → ¬ pp ∣ c) → c = 1 ∨ c.Prime) :
+    ∃ r, cofactor primes x facs maxlarge double tf = some r :=
+  cofactor_some hp2 hne hfacs hx hx256 hml must_be_prime
+
+/-- non-vacuity of `cofactor_no_panic`'s arithmetic core: 1009 passes the Fermat test of the model. -/
+example : certainlyComposite 1009 = some false ∧ certainlyComposite 1007 = some true := by decide +kernel
+
+/-- `fbase_new_classes`. The `idx_by_log` table as `FBase::new` fills it (incrementally, while pushing the
+primes) is the documented one, and it partitions the factor base by bit length: for primes strictly
+increasing in `[2, 2^24)` the loop never writes outside its 26 entries, returns `mkIbl`, the result is a
+well-formed factor base (`FB.WF`, the hypothesis of the sieve theorems), and prime `i` lies in
+`[idx_by_log[l], idx_by_log[l+1])` exactly when its bit length is `l` — in particular
+`i < idx_by_log[15] ⇔ p < 2^14`, `i < idx_by_log[16] ⇔ p < 2^15 = BLOCK_SIZE`, size class `l ≥ 16` ⇔
+`2^(l-1) ≤ p < 2^l`: the class boundaries `Sieve::new`, `sieve_block` and `smooths` rely on. -/
+theorem fbase_new_classes (ps : Array Nat) (hs : ps.toList.Pairwise (· < ·))
+    (hr : ∀ p ∈ ps.toList, 2 ≤ p ∧ p < 2 ^ 24) :
+    ∃ ibl, fbaseIbl ps.toList = some ibl ∧ ibl = mkIbl ps ∧ FB.WF { primes := ps, ibl := ibl } ∧
+      ∀ (l i v v' p : Nat), ibl[l]? = some v → ibl[l + 1]? = some v' → ps[i]? = some p →
+        ((v ≤ i ∧ i < v') ↔ bitlen p = l) ∧ (i < v' ↔ p < 2 ^ l) := by
+  have h := fbaseIbl_eq ps.toList hs (fun p hp => (hr p hp).2)
+  have hwf := fbase_new_WF ps _ hs hr h
+  refine ⟨_, h, by simp, hwf, ?_⟩
+  intro l i v v' p h1 h2 hp
+  refine ⟨hwf.class_of (fb := { primes := ps, ibl := mkIbl ps.toList.toArray }) hp h1 h2, ?_⟩
+  rw [hwf.ibl_spec (l + 1) i v' p h2 hp]
+  exact bitlen_lt_succ_iff p l
+
+example : fbaseIbl [2, 3, 5, 7, 11, 4099, 65537] =
+    some #[0, 0, 0, 2, 4, 5, 5, 5, 5, 5, 5, 5, 5, 5, 6, 6, 6, 6, 7, 7, 7, 7, 7, 7, 7, 7] := by decide +kernel
+
+/-- `log_sum_bound` (about the part that is NOT modelled). The byte `blk[pos]` of `sieve_block` accumulates
+the bit length of every factor-base prime with a root at `pos` (at most once per prime: two different
+roots, or one cursor when `r1 = r2`); with true roots these primes divide the polynomial value `v ≠ 0`.
+For distinct primes dividing `v` the sum of bit lengths is `< bitlen v + (number of primes)`; hence the
+`u8` accumulator cannot overflow (no panic with overflow checks, no wrapped value in release) as long as
+`bitlen v + #primes ≤ 256`. Above that bound the overflow IS reachable through `factor()` (see the
+finding reported with this property: a 398-bit `n`, `Algo::Qs`). -/
+theorem log_sum_bound (s : Finset ℕ) (hs : ∀ p ∈ s, p.Prime) (v : ℕ) (hv : v ≠ 0) (hd : ∀ p ∈ s, p ∣ v) :
+    (∑ p ∈ s, bitlen p) < bitlen v + s.card ∧ (bitlen v + s.card ≤ 256 → (∑ p ∈ s, bitlen p) ≤ 255) := by
+  have := log_sum_lt s hs v hv hd
+  exact ⟨this, fun h => by omega⟩
+
+example : (∑ p ∈ ({3, 5, 7} : Finset ℕ), bitlen p) = 8 ∧ bitlen 105 = 7 := by decide
 
 /-- non-vacuity of `no_panic`: the hypotheses hold for a small factor base with a prime of size class 16. -/
 example : (FB.ofPrimes #[2, 5, 32771]).WF ∧ (FB.ofPrimes #[2, 5, 32771]).primes.size ≠ 0 ∧
+    RecycledSized (FB.ofPrimes #[2, 5, 32771]) 3 none ∧
     RootsDistinct (FB.ofPrimes #[2, 5, 32771]) #[0, 3, 7] #[1, 4, 100] := by
-  refine ⟨FB.ofPrimes_WF _ (by decide) (by decide), by decide, ?_⟩
+  refine ⟨FB.ofPrimes_WF _ (by decide) (by decide), by decide, fun _ _ h => by simp at h, ?_⟩
   intro i p hp hge
   have hi : i < 3 := (Array.getElem?_eq_some_iff.1 hp).1
   have : i = 0 ∨ i = 1 ∨ i = 2 := by omega
